@@ -3,7 +3,7 @@ CONSTANTS
   Msgs <- MsgsThorough
   MaxParts = 3
   MaxPartsH = 2
-  MaxDev = 1
+  MaxDev = 2
   Modes <- ModesAll
   KF_NestedAligned = FALSE
   KF_MapSlices = FALSE
